@@ -84,7 +84,9 @@ PATH_PATTERNS = ["r/**/x", "r/d1/*", "r/**/*.txt", "r/v.2/**", "r/ż/b*/x", "r/a
 EXCLUDE_PATTERNS = ["r/d1/**", "**/x.txt", "r/v", "r/d1", "**/d2/**", "r/ż/**", "r/a", "r/sub/**/*.log"]
 REGEX_PATTERNS = [".*/x", ".*\\.txt", ".*/d1/.*", ".*/v\\.2/.*", ".*/[ab]/.*",
                   # alternation at the top level of the expression (the whole path must match one of the branches)
-                  ".*/x|.*\\.txt", ".*/d1/.*|.*/v\\.2/.*", "@RETREE@/r/d1/.*|@RETREE@/r/a/.*", "@RETREE@/r/a/.*|.*/x"]
+                  ".*/x|.*\\.txt", ".*/d1/.*|.*/v\\.2/.*", "@RETREE@/r/d1/.*|@RETREE@/r/a/.*", "@RETREE@/r/a/.*|.*/x",
+                  # counted repetitions after a literal prefix: the character before '{' may occur zero times
+                  "@RETREE@/r/d12{0,2}/.*", "@RETREE@/r/d1x{0,1}/.*", "@RETREE@/r/d{1,2}1/.*", "@RETREE@/r/d1/d2y{0}/.*"]
 
 
 # --------------------------------------------------------------------------- reference glob (documented semantics)
